@@ -9,7 +9,13 @@ import (
 	"testing/synctest"
 	"time"
 
+	"context"
+	"sync"
+
 	"github.com/hydraide/hydraide/app/core/filesystem"
+	"github.com/hydraide/hydraide/app/core/hydra"
+	"github.com/hydraide/hydraide/app/core/hydra/swamp"
+	"github.com/hydraide/hydraide/app/name"
 	"github.com/hydraide/hydraide/app/core/settings"
 	"github.com/hydraide/hydraide/app/core/zeus"
 	"github.com/hydraide/hydraide/app/server/gateway"
@@ -108,6 +114,80 @@ func genSched(r *rng) *Sched {
 
 // ---------------------------------------------------------------------------
 // in-process server
+
+// summonProbe observes SummonSwamp as the gateway calls it (the gateway reaches the engine through
+// ZeusInterface.GetHydra(), which this wraps). It records, for every call, which instances of that name that had
+// been handed out earlier were already closing when the call BEGAN; the engine must never hand one of those out
+// again (a request that arrives after a swamp started to close has to wait for the close and get a new instance).
+// A close that starts while the call is in progress is not judged: that window is the engine's known race.
+type summonProbe struct {
+	hydra.Hydra
+	mu       sync.Mutex
+	handed   map[string][]swamp.Swamp
+	finding  string
+	summons  int64
+	judgable int64 // calls that began while an earlier instance was closing
+}
+
+func (h *summonProbe) SummonSwamp(ctx context.Context, islandID uint64, swampName name.Name) (swamp.Swamp, error) {
+	key := swampName.Get()
+	h.mu.Lock()
+	earlier := append([]swamp.Swamp(nil), h.handed[key]...)
+	h.summons++
+	h.mu.Unlock()
+	var closingAtEntry []swamp.Swamp
+	for _, in := range earlier {
+		if in.IsClosing() {
+			closingAtEntry = append(closingAtEntry, in)
+		}
+	}
+	sw, err := h.Hydra.SummonSwamp(ctx, islandID, swampName)
+	h.mu.Lock()
+	defer h.mu.Unlock()
+	if len(closingAtEntry) > 0 {
+		h.judgable++
+	}
+	if err != nil || sw == nil {
+		return sw, err
+	}
+	known := false
+	for _, in := range earlier {
+		if in == sw {
+			known = true
+		}
+	}
+	for _, in := range closingAtEntry {
+		if in == sw && h.finding == "" {
+			h.finding = fmt.Sprintf("SummonSwamp(%s) returned an instance that had already begun to close before the call started", key)
+		}
+	}
+	if !known {
+		dup := false
+		for _, in := range h.handed[key] {
+			if in == sw {
+				dup = true
+			}
+		}
+		if !dup {
+			h.handed[key] = append(h.handed[key], sw)
+		}
+	}
+	return sw, err
+}
+
+type zeusProbe struct {
+	zeus.Zeus
+	h *summonProbe
+}
+
+func (z *zeusProbe) GetHydra() hydra.Hydra { return z.h }
+
+// watchSummons routes the gateway's engine access through a summonProbe.
+func (s *simServer) watchSummons() *summonProbe {
+	p := &summonProbe{Hydra: s.zeus.GetHydra(), handed: map[string][]swamp.Swamp{}}
+	s.gw.ZeusInterface = &zeusProbe{Zeus: s.zeus, h: p}
+	return p
+}
 
 type simServer struct {
 	disk     *simdisk.Disk
